@@ -80,6 +80,11 @@ class Prop(common.PropertyCheck):
             yield {'res': [1024, 4096, 262144][i % 3], 'units': ['raw', 'rfi'][i % 2], 'scale': 'logicle', 'n': [None, 17][i % 2], 'chform': ['name', 'list', 'all'][i % 3], 'over': 'Wnear',
                    'dt': ['F', 'I'][i % 2], 'tinyneg': False, 'nan': False, 'seed': 3 * rng.randrange(1 << 28) + i % 3}
 
+        # events above the upper range limit (saturated / compensated floating-point values): the grid follows the range, not the events
+        for i in range(9):
+            yield {'res': [1024, 4096, 262144][i % 3], 'units': ['raw', 'rfi', 'raw'][(i // 3) % 3], 'scale': 'logicle', 'n': [None, 17][i % 2], 'chform': ['name', 'list', 'all'][i % 3], 'over': None,
+                   'dt': 'F', 'tinyneg': False, 'nan': False, 'seed': 8800 + i, 'overev': True}
+
     def sample(self, case):
         import random
         r = random.Random(case['seed'])
@@ -97,6 +102,9 @@ class Prop(common.PropertyCheck):
             # clearly negative events in every channel (the data-derived W is then well above 0)
             d = d.copy()
             d[1, 0] = -0.01 * res; d[2, 1] = -0.02 * res; d[3, 2] = -12.0
+        if case.get('overev') and case.get('dt') == 'F':
+            d = d.copy()
+            d[5, 0] = 3.0 * res; d[6, 1] = 2.5 * res; d[7, 2] = 5000.0
         if case.get('tinyneg') and case.get('dt') == 'F':
             # negative events only slightly below zero (well inside the linear region the default W would give)
             d = FlowCal.transform.transform(d, None, lambda x: np.where(np.asarray(x) < 0, np.asarray(x) * 1e-5, np.asarray(x)))
